@@ -8,7 +8,7 @@ revert. With --all also runs every other check to see collateral detection. Prin
 import json, os, subprocess, sys
 prop, n = sys.argv[1], sys.argv[2]
 flags = sys.argv[3:]
-src = '/tmp/seed_%s_out' % prop
+src = ('/tmp/seed2_%s_out' if '--round2' in flags else '/tmp/seed_%s_out') % prop
 if '--from-seeded' in flags:
     src = '/verif/seeded/%s-%s' % (prop, n)
 patch = os.path.join(src, 'patch%s.diff' % n if os.path.exists(os.path.join(src, 'patch%s.diff' % n)) else 'patch.diff')
@@ -22,14 +22,14 @@ head = sh('git -C /repo rev-parse HEAD').stdout.strip()
 sh('git -C %s checkout -q --detach %s; git -C %s checkout -- .; git -C %s clean -fdq' % (WT, head, WT, WT))
 env = dict(os.environ, PYTHONPATH='%s/src:%s/tests' % (WT, WT))
 def run_demo():
-    txt = open(demo).read().replace('/tmp/seed_%s' % prop, WT) if os.path.exists(demo) else ''
+    txt = open(demo).read().replace('/tmp/seed2_%s' % prop, WT).replace('/tmp/seed_%s' % prop, WT) if os.path.exists(demo) else ''
     tmp = '/tmp/vf_demo_%s_%s.py' % (prop, n)
     open(tmp, 'w').write(txt)
     p = sh('cd %s && timeout 300 /venv/bin/python %s' % (WT, tmp), env=env)
     return p.returncode, (p.stdout + p.stderr)[-300:]
 out = {'prop': prop, 'n': n}
 rc, txt = run_demo(); out['demo_clean_rc'] = rc
-ptxt = open(patch).read().replace('a/tmp/seed_%s/' % prop, 'a/').replace('b/tmp/seed_%s/' % prop, 'b/')
+ptxt = open(patch).read().replace('a/tmp/seed2_%s/' % prop, 'a/').replace('b/tmp/seed2_%s/' % prop, 'b/').replace('a/tmp/seed_%s/' % prop, 'a/').replace('b/tmp/seed_%s/' % prop, 'b/')
 open('/tmp/vf_patch.diff', 'w').write(ptxt)
 p = sh('git -C %s apply /tmp/vf_patch.diff' % WT)
 if p.returncode != 0:
